@@ -104,7 +104,10 @@ func checkC13(c *chk.Ctx) {
 	id := 0
 	evals := 0
 	for i, raw := range raws {
-		if (i+int(c.Seed))%stride != 0 {
+		// the quick tier samples the large annotation x cardinality products by seed; the hand-shaped
+		// schemas (identifier shapes, several services / files / packages, method shapes) always run
+		shaped := strings.Contains(raw, `"kind":"c13x"`) || strings.Contains(raw, `"kind":"c13m"`)
+		if (i+int(c.Seed))%stride != 0 && !shaped {
 			continue
 		}
 		for _, sk := range []string{"h", "c", "b"} {
